@@ -9,6 +9,7 @@ definition with the same label base and writes the expected HTML; TLC checks Fir
 The harness compares the real HTML and the real Document.footnotes table with the specification's.
 """
 import json
+from concurrent.futures import ThreadPoolExecutor
 import multiprocessing as mp
 
 from . import core, docgen, htmlnorm
@@ -77,11 +78,54 @@ def run():
         judge_docs(docgen.dedupe(docgen.concretise(docgen.simulate(ck, 'DocGenRefsSim.cfg', 60000))))
     # every short line sequence over the alphabets that hold definitions, read by spec/BlockParse.tla (HTML and definition table)
     judge_docs(blockparse.documents(ck, 3 if ck.tier == 'quick' else 4, laws=False, only=['R1', 'R2', 'R3', 'R5']))
+    reflinks_layer(ck)
     ck.extra['binding_selftest'] = 'expected HTML and definition table are compared for equality; see C03 for the corrupted-expectation test'
     ck.exhaustive = True
     ck.assumptions = ['labels are compared through the specification\'s base table (case and inner-whitespace variants of one base; near-duplicates are different bases); Unicode case folding is not covered by the model',
                       'a definition typed directly in a list item is never next to a blank line (whether that makes the list loose is not settled by the specification text)']
     return ck.finish()
+
+
+def reflinks_layer(ck):
+    """spec/RefLinks.tla: the three reference forms for links and images as the procedure "look for link or image" resolves them
+    (one defined label, every other label undefined; openers, deactivation of outer links, labels that hold brackets, what
+    follows the closing bracket): every text up to 7 (quick) / 8 (thorough) characters over {a, [, ], !, space}, sharded by the
+    first character; the real parser renders text + blank line + the definition."""
+    cfg = 'RefLinksQ.cfg' if ck.tier == 'quick' else 'RefLinksT.cfg'
+
+    def one(sh):
+        return core.tlc('RefLinks', cfg, workers=1, env={'SHARD': sh}, timeout=3000, heap='2g')
+    with ThreadPoolExecutor(max_workers=core.NCPU) as ex:
+        results = list(ex.map(one, ['a', '[', ']', '!']))
+    m = core.impl()
+    n = links = skipped = 0
+    for res in results:
+        ck.add_tlc(res)
+        for rec in res.printed_json():
+            if rec['tags']:
+                skipped += 1        # the specification text and its procedure disagree (a blank label behind a shortcut): not judged
+                continue
+            src = rec['input'] + '\n\n[a]: /u\n'
+            try:
+                with m.HtmlRenderer() as r:
+                    got = r.render(m.Document(src))
+            except Exception as e:
+                got = 'EXCEPTION ' + e.__class__.__name__
+            want = '<p>' + rec['html'] + '</p>\n'
+            n += 1
+            links += '<a ' in rec['html'] or '<img ' in rec['html']
+            ck.traces += 1
+            ck.count(('reflinks', rec['input']) if ('<a ' in rec['html'] or '<img ' in rec['html']) else None)
+            if n % 9973 == 1:
+                ck.sample({'source': src, 'expected_html': want})
+            if got != want:
+                ck.violation('LinkRefs.html: source=%r expected=%r observed=%r' % (src, want, got),
+                             {'input': src, 'expected': htmlnorm.normalize(want), 'observed': htmlnorm.normalize(got), 'clause': 'LinkRefs.html', 'classes': []})
+    if n < 50000 or links < 3000:
+        raise core.MachineryError('RefLinks.tla exported only %d texts (%d with a link or image)' % (n, links))
+    ck.extra['reflinks_texts'] = n
+    ck.extra['reflinks_texts_with_reference'] = links
+    ck.extra['reflinks_unsettled_not_judged'] = skipped
 
 
 def replay(path):
